@@ -83,12 +83,200 @@ def main():
                 txt = "raise:Other"
             res.append(txt + " | " + state())
 
-    for seq in req["seqs"]:
+    for seq in req.get("seqs", []):
         res = []
         th = threading.Thread(target=run_seq, args=(seq, res))        # a new thread: no attribute exists yet on its view of the cells
         th.start(); th.join()
         out.append(res)
-    print(json.dumps(out))
+
+    # ---- the two brackets of _MetaPyTree._check: CPython runs THE SAME STATEMENTS (cut out of the source), with scripted
+    #      stand-ins for the code they call out to; model/SL.v interprets their translation with the same script
+    fout = []
+    if req.get("fragments"):
+        import ast, inspect, textwrap
+        from jaxtyping import _pytree_type as pt
+
+        class Boom(BaseException):
+            pass
+
+        def scripted(code, what):
+            if code == 0:
+                return ([], None) if what == "flatten" else True
+            if code == 1:
+                return False
+            if code == 2:
+                raise AnnotationError("scripted")
+            if code == 3:
+                raise RuntimeError("scripted")
+            if code == 4:
+                raise Boom("scripted")
+            if code == 5:
+                st._treepath_storage.value = "x"; return True
+            if code == 6:
+                st._treeflatten_storage.value = False; return True
+            if code == 7:
+                st._treeflatten_storage.value = False; return ([], None)
+            raise RuntimeError("unknown code")
+
+        def scripted_check(code, live, ok, no):
+            """stand-in for cls._check_shape / cls._check: optionally binds n=3 IN PLACE in the live dictionary it was handed"""
+            if code in (8, 9, 10, 11):
+                live["n"] = 3
+            if code in (0, 8):
+                return ok
+            if code in (1, 9):
+                return no
+            if code == 2:
+                raise AnnotationError("scripted")
+            if code in (3, 10):
+                raise RuntimeError("scripted")
+            if code in (4, 11):
+                raise Boom("scripted")
+            raise RuntimeError("unknown code")
+
+        src = open(pt.__file__).read()
+        tree = ast.parse(src)
+        chk = [m for c in tree.body if isinstance(c, ast.ClassDef) and c.name == "_MetaPyTree" for m in c.body if isinstance(m, ast.FunctionDef) and m.name == "_check"][0]
+        body = chk.body
+        fb = [i for i, x in enumerate(body) if isinstance(x, ast.Expr) and isinstance(x.value, ast.Call) and getattr(x.value.func, "id", None) == "set_treeflatten_memo"][0]
+
+        def make(stmts, params):
+            fn = ast.FunctionDef(name="frag", args=ast.arguments(posonlyargs=[], args=[ast.arg(arg=a) for a in params], kwonlyargs=[], kw_defaults=[], defaults=[]),
+                                 body=stmts, decorator_list=[], type_params=[])
+            mod = ast.fix_missing_locations(ast.Module(body=[fn], type_ignores=[]))
+            g = dict(vars(pt))
+            exec(compile(mod, "<fragment of _pytree_type.py>", "exec"), g)
+            return g["frag"]
+        def tail_of(module, clsname, fname):
+            t = ast.parse(open(module.__file__).read())
+            m = [m for c in t.body if isinstance(c, ast.ClassDef) and c.name == clsname for m in c.body if isinstance(m, ast.FunctionDef) and m.name == fname][0]
+            k = [i for i, x in enumerate(m.body) if isinstance(x, ast.Assign) and isinstance(x.value, ast.Call) and getattr(x.value.func, "id", None) == "get_shape_memo"][0]
+            fn = ast.FunctionDef(name="frag", args=ast.arguments(posonlyargs=[], args=[ast.arg(arg="cls"), ast.arg(arg="obj")], kwonlyargs=[], kw_defaults=[], defaults=[]),
+                                 body=m.body[k:], decorator_list=[], type_params=[])
+            g = dict(vars(module))
+            exec(compile(ast.fix_missing_locations(ast.Module(body=[fn], type_ignores=[])), "<fragment of %s>" % module.__name__, "exec"), g)
+            return g["frag"]
+        from jaxtyping import _array_types as at_
+        frag_atail = tail_of(at_, "_MetaAbstractArray", "__instancecheck_str__")
+        frag_ptail = tail_of(pt, "_MetaPyTree", "__instancecheck__")
+        # the new-style decorated-call wrapper (jaxtyping/_decorator.py: the wrapped_fn that calls wrapped_fn_impl), closure variables scripted
+        from jaxtyping import _decorator as dc_
+        dtree = ast.parse(open(dc_.__file__).read())
+        wfn = [n for n in ast.walk(dtree) if isinstance(n, ast.FunctionDef) and n.name == "wrapped_fn" and any(isinstance(x, ast.Name) and x.id == "wrapped_fn_impl" for x in ast.walk(n))][0]
+        wfn = ast.FunctionDef(name="frag", args=wfn.args, body=wfn.body, decorator_list=[], type_params=[])
+
+        def run_wrapped(sc):
+            bit = lambda n: (sc // n) % 2 == 1
+            class Cfg:
+                jaxtyping_disable = bit(1)
+            class Fn:
+                def __call__(self, *a, **k):
+                    if bit(64):
+                        raise RuntimeError("scripted")
+                    return 9
+            fn = Fn()
+            if bit(2):
+                fn.__no_type_check__ = True
+            class Wr:
+                pass
+            wr = Wr()
+            if bit(4):
+                wr.__no_type_check__ = True
+            class Bound:
+                arguments = {"k": 2}
+                def apply_defaults(self):
+                    return None
+            class Sig:
+                def bind(self, *a, **k):
+                    if bit(8):
+                        raise RuntimeError("scripted")
+                    return Bound()
+            def impl(args, kwargs, bound, memos):
+                code = (sc // 16) % 4
+                if code == 1:
+                    raise RuntimeError("scripted")
+                if code == 2:
+                    raise Boom("scripted")
+                if code == 3:
+                    memos[0]["n"] = 3
+                return 7
+            g = dict(vars(dc_))
+            g.update(config=Cfg, fn=fn, param_signature=Sig(), wrapped_fn_holder=[lambda: wr], wrapped_fn_impl=impl)
+            exec(compile(ast.fix_missing_locations(ast.Module(body=[wfn], type_ignores=[])), "<fragment of _decorator.py>", "exec"), g)
+            return g["frag"](1)
+        ofn = [n for n in ast.walk(dtree) if isinstance(n, ast.FunctionDef) and n.name == "wrapped_fn" and not any(isinstance(x, ast.Name) and x.id == "wrapped_fn_impl" for x in ast.walk(n))][0]
+        ofn = ast.FunctionDef(name="frag", args=ofn.args, body=ofn.body, decorator_list=[], type_params=[])
+
+        def run_old_wrapped(sc):
+            bit = lambda n: (sc // n) % 2 == 1
+            class Bound:
+                arguments = {"k": 2}
+                def apply_defaults(self):
+                    return None
+            class Sig:
+                def bind(self, *a, **k):
+                    if bit(8):
+                        raise RuntimeError("scripted")
+                    return Bound()
+            def fn(*a, **k):
+                code = (sc // 16) % 4
+                if code == 1:
+                    raise RuntimeError("scripted")
+                if code == 2:
+                    raise Boom("scripted")
+                if code == 3:
+                    st.get_shape_memo()[0]["n"] = 3
+                    raise RuntimeError("scripted")
+                return 9
+            g = dict(vars(dc_))
+            g.update(signature=Sig(), fn=fn)
+            exec(compile(ast.fix_missing_locations(ast.Module(body=[ofn], type_ignores=[])), "<fragment of _decorator.py>", "exec"), g)
+            return g["frag"](1)
+        frag_loop = make(body[-2:], ["cls", "leaves", "is_check_leaftype"])
+        frag_flat = make(body[fb:fb + 2], ["obj", "jtu", "is_flatten_leaftype"])
+
+        class Jtu:
+            @staticmethod
+            def tree_flatten(obj, is_leaf=None):
+                return scripted(obj, "flatten")
+
+        def run_frag(case, res):
+            pre = []
+            run_seq(case["pre"], pre)
+            try:
+                if case["kind"] == "leafloop":
+                    cls = type("C", (), {"structure": case["structure"]})
+                    r = frag_loop(cls, list(case["codes"]), lambda leaf: scripted(leaf, "leaf"))
+                elif case["kind"] == "wrapped":
+                    r = run_wrapped(case["sc"])
+                elif case["kind"] == "oldwrapped":
+                    r = run_old_wrapped(case["sc"])
+                elif case["kind"] == "arraytail":
+                    cls = type("C", (), {"_check_shape": staticmethod(lambda obj, sm, vm, am: scripted_check(obj, sm, "", "msg"))})
+                    r = frag_atail(cls, case["code"])
+                elif case["kind"] == "pytreetail":
+                    cls = type("C", (), {"_check": staticmethod(lambda obj, pm: scripted_check(obj, pm, True, False))})
+                    r = frag_ptail(cls, case["code"])
+                else:
+                    r = frag_flat(case["code"], Jtu, None)
+                txt = show(r)
+            except AnnotationError:
+                txt = "raise:AnnotationError"
+            except AttributeError:
+                txt = "raise:AttributeError"
+            except IndexError:
+                txt = "raise:IndexError"
+            except Exception:
+                txt = "raise:Other"
+            except BaseException:
+                txt = "raise:BaseException"
+            res.append(txt + " | " + state())
+        for case in req["fragments"]:
+            res = []
+            th = threading.Thread(target=run_frag, args=(case, res))
+            th.start(); th.join()
+            fout.append(res[0] if res else "thread-died")
+    print(json.dumps({"seqs": out, "fragments": fout} if "fragments" in req else out))
 
 
 if __name__ == "__main__":
